@@ -107,6 +107,10 @@ pub enum Ev {
     Count { c: u8, r: u8 },
     /// Json target: `JsonCursor::line()` / `column()` of the `nth` node.
     Node { c: u8, r: u8, nth: u64 },
+    /// Json/Yaml target: evaluate program template `t` (arguments `a`, `b`) with the REAL
+    /// generic evaluator over replica `r`; the rendered result must equal what a fresh
+    /// clone of a never-queried index gives.
+    Jq { c: u8, r: u8, t: u8, a: u64, b: u64 },
     /// Fault: drop replica `r` and rebuild it from the text (cache lost).
     Restart { r: u8 },
     /// Fault: clone replica `r` (cache copied); later ops may go to either.
@@ -121,6 +125,7 @@ impl Ev {
             | Ev::Rt { c, .. }
             | Ev::Ls { c, .. }
             | Ev::Count { c, .. }
+            | Ev::Jq { c, .. }
             | Ev::Node { c, .. } => *c,
             Ev::Restart { .. } | Ev::Fork { .. } => 250,
         }
@@ -166,6 +171,8 @@ pub const REACH: &[&str] = &[
     "text_crlf",           // 25
     "text_cr_only_break",  // 26
     "text_empty",          // 27
+    "jq_eval",             // 28 evaluator-level client ran a line/column program
+    "jq_eval_panics_identically_on_fresh_clone", // 29
 ];
 const R_LC_FIRST: usize = 0;
 const R_LC_REPEAT: usize = 1;
@@ -194,6 +201,8 @@ const R_BIG: usize = 24;
 const R_CRLF: usize = 25;
 const R_CR: usize = 26;
 const R_EMPTY: usize = 27;
+const R_JQ: usize = 28;
+const R_JQ_PANIC: usize = 29;
 
 pub const FAULTS: &[&str] = &["restart", "fork", "out_of_range"];
 const F_RESTART: usize = 0;
@@ -403,6 +412,23 @@ pub fn gen_yaml_text(rng: &mut Rng) -> Vec<u8> {
     out
 }
 
+/// Program templates for the evaluator-level client (jq syntax; the yq parser mode
+/// accepts the same text).
+pub fn jq_template(t: u8, a: u64, b: u64) -> String {
+    match t % 10 {
+        0 => "[.[] | line]".into(),
+        1 => "[.[] | column]".into(),
+        2 => "[.[] | [line, column]]".into(),
+        3 => "[.[] | .[]? | line]".into(),
+        4 => format!("at_offset({a}) | [line, column]"),
+        5 => format!("at_position({a}; {b}) | [line, column]"),
+        6 => "[.. | line]".into(),
+        7 => "[.[] | column] | reverse".into(),
+        8 => format!("[.[] | line], (at_offset({a}) | column)"),
+        _ => "[.[][]? | [line, column]]".into(),
+    }
+}
+
 #[derive(Clone, Copy, Debug)]
 enum Kind {
     Walker,
@@ -413,6 +439,7 @@ enum Kind {
     RoundTrip,
     Meta,
     NodeWalker,
+    JqEval,
 }
 
 struct Client {
@@ -495,6 +522,14 @@ fn edge_offset(r: &mut Rng, m: &LineModel) -> u64 {
     }
 }
 
+fn edge_or_inner(r: &mut Rng, m: &LineModel) -> u64 {
+    if m.len == 0 || r.chance(1, 4) {
+        edge_offset(r, m).min(1 << 40)
+    } else {
+        r.below(m.len)
+    }
+}
+
 fn reverse_args(r: &mut Rng, m: &LineModel) -> (u64, u64) {
     let n = m.starts.len() as u64;
     let line = match r.below(10) {
@@ -565,6 +600,8 @@ impl C12 {
         let kinds_json = [
             Kind::Walker,
             Kind::Walker,
+            Kind::JqEval,
+            Kind::JqEval,
             Kind::NodeWalker,
             Kind::NodeWalker,
             Kind::BackJumper,
@@ -576,6 +613,8 @@ impl C12 {
         let kinds_yaml = [
             Kind::Walker,
             Kind::Walker,
+            Kind::JqEval,
+            Kind::JqEval,
             Kind::BackJumper,
             Kind::Repeater,
             Kind::EdgeProber,
@@ -681,6 +720,16 @@ impl C12 {
                         };
                         Ev::Ls { c, r, line }
                     }
+                }
+                Kind::JqEval => {
+                    let t = cl.rng.below(10) as u8;
+                    let (a, b) = if t % 10 == 5 {
+                        let (l, col) = reverse_args(&mut cl.rng, &m);
+                        (l.min(1 << 40), col.min(1 << 40))
+                    } else {
+                        (edge_or_inner(&mut cl.rng, &m), 0)
+                    };
+                    Ev::Jq { c, r, t, a, b }
                 }
                 Kind::NodeWalker => {
                     let nth = if cl.rng.chance(1, 8) {
@@ -808,6 +857,7 @@ impl Scenario for C12 {
             "text_crlf",
             "text_cr_only_break",
             "text_empty",
+            "jq_eval",
         ]
     }
 
@@ -863,6 +913,7 @@ impl Scenario for C12 {
         let mut replicas: Vec<Replica> = vec![first];
         let mut shadows: Vec<Shadow> = vec![Shadow::default()];
         let mut json_opens: Option<Vec<usize>> = None;
+        let mut pristine: Option<Replica> = None;
 
         for (seq, ev) in case.events.iter().enumerate() {
             obs.step(ev.client());
@@ -980,6 +1031,44 @@ impl Scenario for C12 {
                         }
                     }
                 }
+                Ev::Jq { r, t, a, b, .. } => {
+                    let i = pick(*r, replicas.len());
+                    let prog = jq_template(*t, *a, *b);
+                    let run = |rep: &Replica| -> Option<Result<String, String>> {
+                        match rep {
+                            Replica::Json(ix) => {
+                                let expr = succinctly::jq::parse(&prog).ok()?;
+                                Some(crate::jqrun::caught(|| {
+                                    crate::jqrun::eval_to_string::<succinctly::jq::JqSemantics, _>(&expr, ix.root(text))
+                                }))
+                            }
+                            Replica::Yaml(ix) => {
+                                let expr = succinctly::jq::parse_with_mode(&prog, succinctly::jq::ParserMode::Yq).ok()?;
+                                Some(crate::jqrun::caught(|| {
+                                    crate::jqrun::eval_to_string::<succinctly::jq::YqSemantics, _>(&expr, ix.root(text))
+                                }))
+                            }
+                            Replica::Line(_) => None,
+                        }
+                    };
+                    if !matches!(replicas[i], Replica::Line(_)) {
+                        let p = pristine.get_or_insert_with(|| Replica::build(case.target, text).0);
+                        let fresh = p.fork();
+                        if let (Some(got), Some(want)) = (run(&replicas[i]), run(&fresh)) {
+                            note_use(obs, &mut shadows[i]);
+                            obs.reach.hit(R_JQ);
+                            if got.is_err() {
+                                obs.reach.hit(R_JQ_PANIC);
+                            }
+                            // the evaluator asked an unknown number of offsets: the harness no
+                            // longer knows the last query of this replica
+                            shadows[i].last = None;
+                            if got != want {
+                                return Err(mismatch("jq_line_column_program", seq, ev, json!({"program": prog, "result": got}), json!({"program": prog, "result": want})));
+                            }
+                        }
+                    }
+                }
                 Ev::Node { r, nth, .. } => {
                     let i = pick(*r, replicas.len());
                     if let Replica::Json(ix) = &replicas[i] {
@@ -1053,6 +1142,7 @@ impl Scenario for C12 {
                     | Ev::Rt { c, .. }
                     | Ev::Ls { c, .. }
                     | Ev::Count { c, .. }
+                    | Ev::Jq { c, .. }
                     | Ev::Node { c, .. } => *c = 0,
                     _ => {}
                 }
@@ -1227,6 +1317,14 @@ impl Scenario for C12 {
                     s.u64(*c as u64);
                     s.u64(*r as u64);
                     s.u64(*nth);
+                }
+                Ev::Jq { c, r, t, a, b } => {
+                    s.u64(9);
+                    s.u64(*c as u64);
+                    s.u64(*r as u64);
+                    s.u64(*t as u64);
+                    s.u64(*a);
+                    s.u64(*b);
                 }
                 Ev::Restart { r } => {
                     s.u64(7);
